@@ -354,6 +354,7 @@ func (x *Exec) instantiateF(st *State, f *qfact, e *Term, depth int, force bool)
 	}
 	x.linkAtTerms(inst)
 	x.typeReadsIn(st, inst)
+	x.registerCanonsIn(st, inst)
 	x.unfoldSumsIn(st, inst)
 	x.registerFacts(st, inst, f.guard, depth+1)
 	if isW {
